@@ -23,7 +23,7 @@ RULE = ("tables with 1-3 snapshots and 1-4 data files in the current one (local 
         "run through a fresh handle: scan, scan(parallel=2), scan_batches(1|3|1000), iter_records, row_count, column "
         "projection, filter, verify_checksums True / False / env-off - once through fresh handles and once through ONE "
         "long-lived handle that had read the table before the damage. Separately, an exception is injected at each "
-        "storage read call of each API (S3: transient burst within the 6-attempt budget must be masked, beyond it and "
+        "storage read call of each API (S3: transient burst within the 6-attempt budget may be masked - then the whole answer - beyond it and "
         "permanent codes must raise; local: OSError must raise). quick samples (file, damage) pairs, thorough sweeps "
         "all. One evaluation = one (table, file, damage, API). Oracle: exception, or exactly the undamaged answer and "
         "only when the API does not read the damaged bytes or the damaged file still parses for the independent "
@@ -407,11 +407,9 @@ def _transient_case(plan, scratch, seed, snap, rows, count, case) -> dict:
     else:
         sim.probe("transient_raised")
         if within and fired <= 5:
-            V.append({"clause": "N.transient_not_masked",
-                      "msg": f"[{cfg}] {api}: transient {exc} x{burst} (within the retry budget) at {first['op']} {first['cls']} "
-                             f"surfaced as {rec.get('exc')}: {rec.get('msg')}",
-                      "sig": f"N.transient_not_masked|{first['op']}|{first['cls']}|{rec.get('exc')}",
-                      "plan_patch": {"cases": [case]}})
+            # raising is what THIS property asks of a read that meets a failing file; that a burst within the retry budget
+            # should have been masked is C20's statement and is decided there
+            sim.probe("transient_within_budget_surfaced")
     res = common.assemble(ph, V, True, cfg, {"api": api, "fault": first, "outcome": rec["outcome"], "exc": rec.get("exc")})
     import hashlib
     res["sched_sig"] = hashlib.sha1(repr((cfg, ai, k, first["op"], first["cls"])).encode()).hexdigest()
